@@ -186,8 +186,8 @@ int main(int argc, char** argv)
 	{
 		int live0 = g_live;
 		bool big = (round++ % 4) == 3; // every 4th execution: high contention, only totals are logged
-		int opsPer = big ? rng.range(1000, args.mode == 1 ? 200000 : 20000) : rng.range(3, 14);
-		int maxThreads = big ? 16 : 3;
+		int opsPer = big ? rng.range(1000, args.mode == 1 ? 200000 : 20000) : args.mode == 3 ? rng.range(50, 2000) : rng.range(3, 14);
+		int maxThreads = big ? 16 : args.mode == 3 ? 8 : 3;
 		int kind = big ? 0 : rng.below(6);
 		bool ok = true;
 		{
@@ -204,15 +204,20 @@ int main(int argc, char** argv)
 			}
 			else
 			{
-				vsched::beginFree(rng.next(), rng.range(0, 50));
+				if (args.mode != 3) vsched::beginFree(rng.next(), rng.range(0, 50)); // mode 3: no hooks at all (data-race detector runs)
 				if (kind == 0) ok = counterScenario(rng, maxThreads, opsPer);
 				else if (kind == 1) ok = handleScenario(rng, pa, maxThreads, opsPer, "Array");
 				else if (kind == 2) ok = handleScenario(rng, pm, maxThreads, opsPer, "Map");
 				else if (kind == 3) ok = handleScenario(rng, ph, maxThreads, opsPer, "HashMap");
 				else if (kind == 4) ok = handleScenario(rng, ps, maxThreads, opsPer, "Shared");
 				else ok = handleScenario(rng, po, maxThreads, opsPer, "SmartObject class");
-				vsched::end();
-				events += vsched::dumpLogByObject(f, kinds, 5) + 1;
+				if (args.mode != 3)
+				{
+					vsched::end();
+					events += vsched::dumpLogByObject(f, kinds, 5) + 1;
+				}
+				else
+					events += 50;
 			}
 		}
 		fflush(f);
